@@ -110,6 +110,9 @@ def call (w : Inputs) : String → List Value → St → Option Res
   | "clock_gettime_safe", [clk], st => ask w st (evOp "clock_gettime_safe" [clk])
   -- std `Path::new(&str)`: the same string seen as a path
   | "Path::new", [.str s], st => some (.val (.ext "Path" [.str s]) st)
+  -- std `ops::ControlFlow<B, C>`: the two variants `Break(b)` / `Continue(c)` (a std enum, not in the generated tables)
+  | "ControlFlow::Break", [v], st => some (.val (.enumv "ControlFlow::Break" [v]) st)
+  | "ControlFlow::Continue", [v], st => some (.val (.enumv "ControlFlow::Continue" [v]) st)
   -- clock_bound_shm `ShmWriter::new(path) -> io::Result<ShmWriter>`: only consulted by a context whose function
   -- table does not contain the translated `ShmWriter::new` (see `CodeTieThreads.writerCtx`): an abstract operation
   | "ShmWriter::new", [p], st => ask w st (evOp "ShmWriter::new" [p])
@@ -137,6 +140,11 @@ def method (w : Inputs) : Value → String → List Value → St → Option Res
   | .enumv "ChannelId::ClockErrorBoundPoller" [], "clone", [], st =>
     some (.val (.enumv "ChannelId::ClockErrorBoundPoller" []) st)
   | .enumv "ChannelId::ShmWriter" [], "clone", [], st => some (.val (.enumv "ChannelId::ShmWriter" []) st)
+  -- std `ControlFlow::is_break` / `is_continue`
+  | .enumv "ControlFlow::Break" [_], "is_break", [], st => some (.val (.bool true) st)
+  | .enumv "ControlFlow::Continue" [_], "is_break", [], st => some (.val (.bool false) st)
+  | .enumv "ControlFlow::Break" [_], "is_continue", [], st => some (.val (.bool false) st)
+  | .enumv "ControlFlow::Continue" [_], "is_continue", [], st => some (.val (.bool true) st)
   -- chrony_poller.rs `trait ChronyOperations` (`poller: impl ChronyOperations`): both methods are operations of the
   -- environment (chronyd, the monotonic clock); the poller value itself is not inspected
   | .struct "ClockErrorBoundPoller" _, "get_tracking", [], st => ask w st (evOp "get_tracking" [])
